@@ -17,16 +17,16 @@ def writers_agree(run, ctx):
         run.violation(fam, label, "anchor-missing/vec", "src/expand.rs", "anchor-missing: Expander::write_expansion_vec")
         return
     cb = W_VEC.sub(lambda m: "W(%s)" % m.group(1), H.canon(b[0]["body"]))
-    want = ("self.exec(template,|step| match step {Step::Char(c) => W(c); "
-            "Step::GroupName(name) => if let Some(m) = captures.name(name) {W(m)} else {if let Some(m) = name.parse().ok().and_then(|num| captures.get(num)) {W(m)} else {Ok(())}}; "
-            "Step::GroupNum(num) => if let Some(m) = captures.get(num) {W(m)} else {Ok(())}; Step::Error => Ok(())})")
+    want = ("self.exec({t},|{st}| match {st} {Step::Char({c}) => W({c}); "
+            "Step::GroupName({nm}) => if let Some({m}) = {caps}.name({nm}) {W({m})} else {if let Some({m2}) = {nm}.parse().ok().and_then(|{k}| {caps}.get({k})) {W({m2})} else {Ok(())}}; "
+            "Step::GroupNum({num}) => if let Some({m3}) = {caps}.get({num}) {W({m3})} else {Ok(())}; Step::Error => Ok(())})")
     n = 1
-    if cb != want:
+    if not H.pat_match(want, cb):
         run.violation(fam, label, "vec-shape", H.where(b[0]), "write_expansion_vec: `$name` inserts the named group (or, failing that, the group whose number the name spells), `$N` the numbered group, absent groups nothing, a malformed reference nothing beyond the literal `$`; found %s" % cb[:300])
     if a:
         ca = W_FMT.sub(lambda m: "W(%s)" % m.group(1), H.canon(a[0]["body"]))
         n += 1
-        if ca != cb:
+        if not H.pat_match(want, ca):
             run.violation(fam, label, "std-vs-vec", H.where(a[0]), "write_expansion (std) and write_expansion_vec (no-std) differ beyond the write primitive: %s  vs  %s" % (ca[:200], cb[:200]))
     # expansion / append_expansion use them
     for name in ("expand::Expander::expansion", "expand::Expander::append_expansion"):
@@ -54,17 +54,19 @@ def check_rule(run, ctx):
     c = H.canon(fn["body"])
     ps = [p.get("name") for p in fn["params"]]
     T, R = ps[1], ps[2]
-    want_num = ("let on_group_num = |num| if (0 == num) {Ok(())} else {if !%s.named_groups.is_empty() {Err(Error::CompileError(CompileError::NamedBackrefOnly))} "
-                "else {if (num < %s.captures_len()) {Ok(())} else {Err(Error::CompileError(CompileError::InvalidBackref))}}}" % (R, R))
+    want_num = ("let {ogn} = |{num}| if (0 == {num}) {Ok(())} else {if !%s.named_groups.is_empty() {Err(Error::CompileError(CompileError::NamedBackrefOnly))} "
+                "else {if ({num} < %s.captures_len()) {Ok(())} else {Err(Error::CompileError(CompileError::InvalidBackref))}}}" % (R, R))
     n = 0
     n += 1
-    if want_num not in c:
+    mnum = H.find_pat(c, want_num)
+    OGN = mnum.group("ogn") if mnum else "on_group_num"
+    if not mnum:
         run.violation(fam, label, "group-num", H.where(fn), "Expander::check: a numeric reference is acceptable only if it is 0, or the regex has no named groups and the number is below captures_len(); shape not found in %s" % c[:260])
-    want_exec = ("self.exec(%s,|step| match step {Step::Char(_) => Ok(()); "
-                 "Step::GroupName(name) => if %s.named_groups.contains_key(name) {Ok(())} else {if let Ok(num) = name.parse() {on_group_num(num)} else {Err(Error::CompileError(CompileError::InvalidBackref))}}; "
-                 "Step::GroupNum(num) => on_group_num(num); Step::Error => Err(" % (T, R))
+    want_exec = ("self.exec(%s,|{st}| match {st} {Step::Char(_) => Ok(()); "
+                 "Step::GroupName({nm}) => if %s.named_groups.contains_key({nm}) {Ok(())} else {if let Ok({k}) = {nm}.parse() {%s({k})} else {Err(Error::CompileError(CompileError::InvalidBackref))}}; "
+                 "Step::GroupNum({k2}) => %s({k2}); Step::Error => Err(" % (T, R, OGN, OGN))
     n += 1
-    if want_exec not in c:
+    if not H.find_pat(c, want_exec):
         run.violation(fam, label, "steps", H.where(fn), "Expander::check: every step kind must be judged (named reference must exist or be a valid number; malformed reference is an error); shape not found in %s" % c[:400])
     run.ok(fam, label, H.where(fn), n, "numeric reference: 0 | (no named groups & < captures_len); named reference must exist; malformed => Err")
 
@@ -108,15 +110,15 @@ def scanner_shape(run, ctx):
     def need(s, key, what):
         nonlocal n
         n += 1
-        if s not in c:
+        if not H.find_pat(c, s):
             run.violation(fam, label, key, H.where(fn), "Expander::exec: %s; `%s` not found in %s" % (what, s, c[:200]))
-    need("let iter = %s.chars(); while let Some(c) = iter.next() {if (c == self.sub_char) {let tail = iter;" % T, "scan", "the template is scanned char by char and a reference starts at the substitution character")
-    need("let skip = if tail.starts_with(self.sub_char) {%s(Step::Char(self.sub_char))?; 1}" % F, "doubled", "a doubled substitution character yields one literal character and skips exactly one byte")
-    need("else {if let Some((id,skip)) = parse_id(tail,self.open,self.close,false).or_else(|| if self.allow_undelimited_name {parse_id(tail,\"\",\"\",false)} else {None}) {%s(Step::GroupName(id))?; skip}" % F,
-         "name", "a delimited name is tried first, then (if allowed) the longest undelimited identifier")
-    need("else {if let Some((skip,num)) = parse_decimal(tail,0) {%s(Step::GroupNum(num))?; skip}" % F, "number", "then a decimal group number")
-    need("else {%s(Step::Error)?; %s(Step::Char(self.sub_char))?; 0}}}" % (F, F), "fallback", "otherwise the substitution character is copied verbatim (after reporting the malformed reference)")
-    need("iter = iter[skip..].chars()} else {%s(Step::Char(c))?}}; Ok(())" % F, "advance", "scanning resumes `skip` bytes into the tail; other characters are copied verbatim")
+    whole = ("let {it} = %s.chars(); while let Some({c}) = {it}.next() {if ({c} == self.sub_char) {let {tail} = {it}; "
+             "let {skip} = if {tail}.starts_with(self.sub_char) {%s(Step::Char(self.sub_char))?; 1} "
+             "else {if let Some(({id},{sk1})) = parse_id({tail},self.open,self.close,false).or_else(|| if self.allow_undelimited_name {parse_id({tail},\"\",\"\",false)} else {None}) {%s(Step::GroupName({id}))?; {sk1}} "
+             "else {if let Some(({sk2},{num})) = parse_decimal({tail},0) {%s(Step::GroupNum({num}))?; {sk2}} "
+             "else {%s(Step::Error)?; %s(Step::Char(self.sub_char))?; 0}}}; "
+             "{it} = {it}[{skip}..].chars()} else {%s(Step::Char({c}))?}}; Ok(())") % (T, F, F, F, F, F, F)
+    need(whole, "scanner", "the template is scanned char by char; at the substitution character the alternatives are tried in the documented order (doubled character -> one literal char and skip exactly 1 byte; delimited name, then if allowed the longest undelimited identifier; decimal group number; otherwise the character is copied verbatim after reporting the malformed reference) and scanning resumes `skip` bytes into the tail")
     es = S.get_fn(run, ctx, "expand::Expander::escape", fam, label)
     if es is not None:
         ce = H.canon(es["body"])
